@@ -108,7 +108,7 @@ def check_output_shape(prog, src, out, width, res, case, tail):
             return True
         depth = []
         for t in prog.toks:
-            depth += [t.depth] * (3 if t.cls == 'LABEL' else 1)
+            depth += [t.depth] * (3 if t.cls.startswith('LABEL') else 1)
         first_on_line = {}
         for k, t in enumerate(toks):
             pass
